@@ -43,7 +43,7 @@ class C01(PropCheck):
         sec3 = run.section(
             'families',
             'deterministic families (harness/families.py): footnotes in multi-column containers, floats with '
-            'definite heights at page bottoms, table rows with colspan/rowspan split across pages, footer-only '
+            'definite heights at page bottoms, floats spanning three pages, footnotes with every policy and a max-height area, forced and avoided breaks between table rows, padded containers around columns and tables, table rows with colspan/rowspan split across pages, footer-only '
             'tables, column spans - every document checked by the Lean conservation checker; documents already '
             'failing on the pinned tree are listed by id in corpus/C01/family_known.json; non-trivial = >= 2 pages')
         self._family_known, cases = wide_trace.family_cases('C01')
